@@ -82,7 +82,16 @@ func (jit *JIterator) Get(ctx context.Context) (records.Record, error) {
 	for err == io.EOF {
 		// eofPos is where the chunk iterator ran out of confirmed records
 		eofPos := jit.pos
-		err = jit.advanceChunk(ctx)
+		if jit.bkwrd {
+			err = jit.advanceChunk(ctx)
+		} else {
+			// The chunk can have grown since its iterator reported io.EOF (a flush), and a following chunk can have
+			// been started too: the selector is asked about the position that was not read (it moves on to the
+			// following chunks itself when there is nothing at it). Stepping to the next chunk id here would skip
+			// the records the chunk has got meanwhile.
+			jit.closeChunk()
+			err = jit.ensureChkIt(ctx)
+		}
 		if err != nil {
 			if err == io.EOF && !jit.bkwrd && jit.pos.CId == eofPos.CId && jit.pos.Idx > eofPos.Idx {
 				// no following chunk: the selector answered with the current end of the same chunk, which can
